@@ -955,7 +955,7 @@ func main() {
 						c.std, _ = zap.NewStdLogAt(base, zapcore.ErrorLevel)
 						cfg.wantPanic = st.stdPanics
 					case feSlog:
-						c.sl = slog.New(zapslog.NewHandler(capCore{w.sk}, zapslog.WithCaller(true), zapslog.WithCallerSkip(k), zapslog.AddStacktraceAt(slog.LevelError)))
+						c.sl = slog.New(zapslog.NewHandler(capCore{w.sk}, append(skipOpts(k), zapslog.WithCaller(true), zapslog.AddStacktraceAt(slog.LevelError))...))
 						cfg.slogSkipK = k
 					case feField:
 						// entry itself: Info level, no entry stack; the field carries the stack
@@ -1082,7 +1082,7 @@ func main() {
 						case feStdPkg:
 							continue // redirects the process-global logger: covered by its own phase
 						case feSlog:
-							opts := []zapslog.HandlerOption{zapslog.WithCaller(true), zapslog.WithCallerSkip(k)}
+							opts := append([]zapslog.HandlerOption{zapslog.WithCaller(true)}, skipOpts(k)...)
 							if sm == 1 {
 								opts = append(opts, zapslog.AddStacktraceAt(slog.Level(-100)))
 							} else {
@@ -1178,6 +1178,64 @@ func main() {
 	}
 
 	lap("A3")
+	// ---- phase A4: loggers built by zap.Config: caller annotation and stack threshold are what the
+	// configuration says, for every combination of its switches
+	{
+		w := newWorker()
+		w.wantSamp = 1
+		for _, baseName := range []string{"NewProductionConfig", "NewDevelopmentConfig"} {
+			for mask := 0; mask < 8; mask++ {
+				dev, disCaller, disStack := mask&1 != 0, mask&2 != 0, mask&4 != 0
+				zc := zap.NewProductionConfig()
+				if baseName == "NewDevelopmentConfig" {
+					zc = zap.NewDevelopmentConfig()
+				}
+				zc.Development, zc.DisableCaller, zc.DisableStacktrace = dev, disCaller, disStack
+				zc.OutputPaths, zc.ErrorOutputPaths, zc.Sampling = nil, nil, nil
+				l, err := zc.Build(zap.WrapCore(func(zapcore.Core) zapcore.Core { return capCore{w.sk} }), zap.WithFatalHook(zapcore.WriteThenPanic))
+				if err != nil {
+					ev.ToolError("Config.Build: %v", err)
+				}
+				thr := zapcore.ErrorLevel
+				if dev {
+					thr = zapcore.WarnLevel
+				}
+				scfg := fmt.Sprintf("Config: stack traces at %v and above", thr)
+				if disStack {
+					scfg = "Config: DisableStacktrace"
+				}
+				for _, sugar := range []bool{false, true} {
+					sites := loggerSites
+					if sugar {
+						sites = sugarSites
+					}
+					for _, st := range sites {
+						for _, lvl := range levelsOf(st) {
+							c := &call{st: st, lvl: lvl, r: w.r}
+							if sugar {
+								c.s = l.Sugar()
+							} else {
+								c.l = l
+							}
+							rel := "level<threshold"
+							if lvl >= thr {
+								rel = "level>=threshold"
+							}
+							w.sk.reset()
+							c.run(0)
+							w.check(c, &caseCfg{phase: "config", st: st, skip: 0, stackSkip: 0, wantCall: !disCaller, wantStack: !disStack && lvl >= thr, lvlName: lvl.String(), stackCfg: scfg, rel: rel, fieldSkip: -1,
+								wantPanic: zapPanics(lvl) || (dev && lvl == zapcore.DPanicLevel),
+								desc:      fmt.Sprintf("%s with Development=%v DisableCaller=%v DisableStacktrace=%v, Build()", baseName, dev, disCaller, disStack),
+								replay:    map[string]any{"config": baseName, "development": dev, "disable_caller": disCaller, "disable_stacktrace": disStack}})
+						}
+					}
+				}
+			}
+		}
+		collect("A4-config", 0, w)
+	}
+
+	lap("A4")
 	// ---- phase B: stack depth x threshold x level x method x skip x caller on/off
 	type dcase struct {
 		D      int
@@ -1301,7 +1359,7 @@ func main() {
 						opts = append(opts, sthr.opt)
 					}
 					if k > 0 {
-						opts = append(opts, zapslog.WithCallerSkip(k))
+						opts = append(opts, skipOpts(k)...)
 					}
 					sl := slog.New(zapslog.NewHandler(capCore{w.sk}, opts...))
 					for _, st := range slogSites {
@@ -1520,7 +1578,7 @@ func main() {
 					opts = append(opts, zapslog.AddStacktraceAt(tl))
 				}
 				if k > 0 {
-					opts = append(opts, zapslog.WithCallerSkip(k))
+					opts = append(opts, skipOpts(k)...)
 				}
 				sl := slog.New(zapslog.NewHandler(capCore{w.sk}, opts...))
 				for _, o := range sc {
@@ -1668,6 +1726,7 @@ func main() {
 		"rule": fmt.Sprintf("every kind-correct chain of length <=%d over {Sugar, Desugar, With, WithLazy, Named, WithOptions(), WithOptions(AddCallerSkip(1)), WithOptions(AddCallerSkip(-1)) [running total may be negative, final total >= 0]} x every generated *Logger / *SugaredLogger logging method (level-parameter methods at all 7 levels, Check+Write) x base AddCallerSkip 0..3 x stack off/on, and every logger a chain passed through used once more after the whole chain was derived and used; "+
 			"captured depth %s (+ goroutine-entry sites) x 8 level thresholds x 7 levels x every method x skip 0..3 x AddCaller on/off, incl. std-log bridge, zap.Stack/StackSkip fields and zapslog with 9 slog levels; all 128 level subsets as stack enabler; "+
 			"every generated method on loggers whose lineage starts at NewNop() / New(nil) / the default L() and that are switched on with WrapCore (8 thresholds x caller on/off x plain, With+Named child, Sugar); every generated method again from call sites reached through one or two inlinable helper functions (the reported frame is an inlined frame), skip 0..2, stack off/on; NewStdLog/NewStdLogAt/RedirectStdLog/RedirectStdLogAt (7 levels) x every print method and zap.L()/zap.S() over chains of length <=%d; slog With/WithGroup chains <=%d x 10 thresholds; path alphabet for TrimmedPath. "+
+			"loggers built by zap.Config.Build: {NewProductionConfig, NewDevelopmentConfig} x Development x DisableCaller x DisableStacktrace x every *Logger / *SugaredLogger method and level (stack threshold Error, Warn in development); a zapslog caller skip of k >= 2 is configured as WithCallerSkip(1) + WithCallerSkip(k-1); "+
 			"distinct = distinct (phase, method, level, configured skip, stack configuration, caller on/off, captured depth) tuples and distinct path inputs; every one executes a real log call whose entry is compared",
 			maxLen, depthDesc(depthList), stdLen, slogLen),
 		"samples":                samples,
@@ -1704,3 +1763,12 @@ type strEnc struct {
 }
 
 func (e *strEnc) AppendString(v string) { e.s = append(e.s, v) }
+
+// skipOpts configures a caller skip of k the way stacked wrappers do: every layer adds its own
+// share (the option is documented to INCREASE the skip), so k >= 2 arrives as 1 + (k-1).
+func skipOpts(k int) []zapslog.HandlerOption {
+	if k < 2 {
+		return []zapslog.HandlerOption{zapslog.WithCallerSkip(k)}
+	}
+	return []zapslog.HandlerOption{zapslog.WithCallerSkip(1), zapslog.WithCallerSkip(k - 1)}
+}
